@@ -29,7 +29,7 @@
    groups nested inside -- before decoding it.  The condition is necessary:
    [C03_reflection_groups_refuted] exhibits a message that is canonical for the table-driven
    path (and round-trips there) whose encoding the reflection path rejects; the same input is
-   replayed on dynamicpb by the harness corpus (finding FB3 in findings/C03.txt).  So for
+   replayed on dynamicpb by the harness corpus (finding FB3 in KNOWN_FINDINGS.txt).  So for
    [slow = true] the theorem is the "_except_FB3" form, with [msg_group_scans] as the narrowest
    exclusion predicate; for [slow = false] it is the full statement
    ([C03_roundtrip_table_driven]).
